@@ -38,7 +38,7 @@ ASSUMPTIONS = [
 ]
 SHARDS = {"quick": 16, "thorough": 16}
 TIMEOUT = {"quick": 900, "thorough": 7200}
-MIN_CASES = {"quick": 60000, "thorough": 600000}
+MIN_CASES = {"quick": 60000, "thorough": 120000}
 REQUIRED_COUNTERS = ["struct_roundtrips", "struct_classes_covered", "linked_id_lists_decoded", "coap_databases_decoded", "ble_signatures_decoded", "characteristic_accessor_checked", "boundary_crossing_values"]
 
 SIZES = [1, 254, 255, 256, 510, 511]
@@ -272,7 +272,7 @@ def roundtrip_part(ctx, sch, classes) -> None:
                 if vals:
                     check_roundtrip(ctx, cls, schema, vals, ("single", name, rep))
                     covered.add(cls.__qualname__)
-        for rep in range(ctx.pick(150, 2500)):
+        for rep in range(ctx.pick(150, 12000)):
             idx += 1
             if not ctx.mine(idx):
                 continue
@@ -385,7 +385,7 @@ def linked_part(ctx) -> None:
                     return
     check([], 3, "empty")
     rng = ctx.rng("C16.linked")
-    for k in range(ctx.pick(3000, 60000) // ctx.nshards):
+    for k in range(ctx.pick(3000, 600000) // ctx.nshards):
         n = rng.randint(0, 6)
         ids = [rng.choice([0, 1, 5, 6, 255, 256, 0x00FF, 0xFF00, 0x1000, rng.getrandbits(16)]) for _ in range(n)]
         if not check(ids, rng.choice([None, 0, 1, 2, 7]), "random"):
@@ -402,7 +402,7 @@ def coap_db_part(ctx) -> None:
     from aiohomekit.model import Accessories
 
     rng = ctx.rng("C16.coapdb")
-    for k in range(ctx.pick(1200, 20000) // ctx.nshards):
+    for k in range(ctx.pick(1200, 120000) // ctx.nshards):
         accs = []
         next_iid = 1
         for a in range(rng.randint(1, 3)):
@@ -519,7 +519,7 @@ def ble_sig_part(ctx) -> None:
         ("service_type", 6, ("bytes",)), ("user_description", 11, ("bytes",)),
     ]
     rng = ctx.rng("C16.blesig")
-    for k in range(ctx.pick(3000, 40000) // ctx.nshards):
+    for k in range(ctx.pick(3000, 300000) // ctx.nshards):
         vals = {"type": rng.getrandbits(128), "instance_id": rng.getrandbits(16), "properties": rng.choice([0x10, 0x30, 0x1B0, 0x3FF, rng.getrandbits(10)])}
         fmt = rng.choice([0x01, 0x04, 0x06, 0x08, 0x0A, 0x10, 0x14, 0x19, 0x1B])
         if rng.random() < 0.8:
